@@ -213,15 +213,27 @@ func (r *accessCheckerRegistry) Repositories(ctx context.Context, startAfter str
 }
 
 func (r *accessCheckerRegistry) Tags(ctx context.Context, repo, startAfter string) ociregistry.Seq[string] {
-	if err := r.check(repo, AccessList); err != nil {
+	if err := r.checkList(repo); err != nil {
 		return ociregistry.ErrorSeq[string](err)
 	}
 	return r.r.Tags(ctx, repo, startAfter)
 }
 
 func (r *accessCheckerRegistry) Referrers(ctx context.Context, repo string, digest ociregistry.Digest, artifactType string) ociregistry.Seq[ociregistry.Descriptor] {
-	if err := r.check(repo, AccessList); err != nil {
+	if err := r.checkList(repo); err != nil {
 		return ociregistry.ErrorSeq[ociregistry.Descriptor](err)
 	}
 	return r.r.Referrers(ctx, repo, digest, artifactType)
+}
+
+// checkList checks list access to the given repository.
+// The name "*" is how check is asked about the Repositories
+// listing as a whole, so a caller that passes it as a
+// repository name must not be mistaken for that: it can never be
+// the name of a repository.
+func (r *accessCheckerRegistry) checkList(repo string) error {
+	if repo == "*" {
+		return ociregistry.ErrNameUnknown
+	}
+	return r.check(repo, AccessList)
 }
